@@ -146,14 +146,19 @@ CheckLog(e) ==
        clog |-> /\ Has(e, "clog")
                 /\ IF undefined THEN e.clog = None ELSE Len(e.clog) = 1 /\ IsLog(v, b, e.clog[1]) ]
 
+\* base 10 by repeated multiplication with a small constant: O(k * length) instead of O(log k) full multiplications, so that
+\* EVERY power of ten of a 4096-bit type can be visited (guard k: a wild result must not make TLC build a huge number)
+Pow10(k) == FoldL(LAMBDA acc, i : MulSmall(acc, 10), One, [i \in 1..k |-> i])
+IsLog10(v, k) == k <= BitLen(v) /\ LET p == Pow10(k) IN Le(p, v) /\ Gt(MulSmall(p, 10), v)
+
 \* log2 / log10 have implicit bases: defined for every non-zero value at every width
 CheckLog210(e) ==
   LET v == e.a  z == IsZero(v)
   IN [ log2   |-> IF z THEN Panics(e, "log2") ELSE Eq(e, "log2", BitLen(v) - 1),
-       log10  |-> IF z THEN Panics(e, "log10") ELSE Has(e, "log10") /\ IsLog(v, <<10>>, e.log10),
+       log10  |-> IF z THEN Panics(e, "log10") ELSE Has(e, "log10") /\ IsLog10(v, e.log10),
        clog2  |-> Eq(e, "clog2", IF z THEN None ELSE Some(BitLen(v) - 1)),
        clog10 |-> /\ Has(e, "clog10")
-                  /\ IF z THEN e.clog10 = None ELSE Len(e.clog10) = 1 /\ IsLog(v, <<10>>, e.clog10[1]) ]
+                  /\ IF z THEN e.clog10 = None ELSE Len(e.clog10) = 1 /\ IsLog10(v, e.clog10[1]) ]
 
 \* r = floor(v^(1/d)):  r^d <= v < (r+1)^d    (d >= 1)
 IsRoot(v, d, r) == ~PowGt(r, d, v) /\ PowGt(AddSmall(r, 1), d, v)
